@@ -233,6 +233,10 @@ func (e *ExpressionAtom) GetSnapshot() string {
 		buff.WriteString(e.Constant.GetSnapshot())
 	} else if e.FunctionCall != nil && e.ExpressionAtom == nil {
 		buff.WriteString(e.FunctionCall.GetSnapshot())
+	} else if e.ArrayMapSelector != nil && e.ExpressionAtom != nil {
+		buff.WriteString(e.ExpressionAtom.GetSnapshot())
+		buff.WriteString("-[]>")
+		buff.WriteString(e.ArrayMapSelector.GetSnapshot())
 	} else if e.FunctionCall == nil && e.ExpressionAtom != nil && len(e.VariableName) == 0 {
 		if e.Negated {
 			buff.WriteString("!")
@@ -246,11 +250,6 @@ func (e *ExpressionAtom) GetSnapshot() string {
 		buff.WriteString(e.ExpressionAtom.GetSnapshot())
 		buff.WriteString("->MV:")
 		buff.WriteString(e.VariableName)
-	}
-	if e.ArrayMapSelector != nil && e.ExpressionAtom != nil {
-		buff.WriteString(e.ExpressionAtom.GetSnapshot())
-		buff.WriteString("-[]>")
-		buff.WriteString(e.ArrayMapSelector.GetSnapshot())
 	}
 	buff.WriteString(")")
 
